@@ -64,9 +64,11 @@ def boundary_grid(run):
                 ("unpackNamed", n), ("unpackNamed", n + 1), ("unpackNamed", max(1, n - 1)), ("unpackIdx", (2, 3)), ("with",),
                 ("zipLongest", ((7,),), sc.NOSEED), ("zipLongest", ((7, 8, 9, 10),), 0), ("zipLongest", (), sc.NOSEED), ("listOf", (7,)),
                 ("groupByAgg", ("mod", 2), None, 0), ("groupByAgg", ("mod", 2), ("add", 1), 1),
+                ("groupByLegacy", ("mod", 2), None, 1), ("groupByLegacy", ("mod", 2), ("add", 1), 0), ("groupByLegacy", ("const", 0), None, 2),
+                ("max", 2), ("min", 2),
                 ("flatten",), ("defaultIfEmpty", (7,)), ("joinRange", 1, 4, ("gt2",), ("pair2",)), ("join", (1, 2, 3), ("eq2",), ("add2",)), ("isList",), ("isIterable",), ("isSet",), ("isDict",), ("in", 2), ("in", None)]
         for s in sts:
-            if None in l and s[0] in ("sum", "min", "max", "aggregate", "accumulate", "groupBy", "groupByAgg"):
+            if None in l and s[0] in ("sum", "min", "max", "aggregate", "accumulate", "groupBy", "groupByAgg", "groupByLegacy"):
                 continue
             if s[0] == "unpackNamed" and s[1] < 1:
                 continue
@@ -83,6 +85,12 @@ def boundary_grid(run):
     out.append((("generate", 0, ("lt", 7), ("add", 2), None, False), []))
     out.append((("generate", 0, ("lt", 7), ("add", 2), ("mul", 10), False), []))
     out.append((("generate", 1, ("lt", 7), ("mod", 3), None, True), []))
+    out.append((("repeat", 1, -1), [("take", 3)]))
+    out.append((("repeat", None, -1), [("skip", 2), ("take", 2)]))
+    out.append((("sequence", 0), [("take", 4)]))
+    out.append((("sequence", -2), [("where", ("modeq", 2, 0)), ("take", 3)]))
+    out.append((("range", 0, 4, 1), []))
+    out.append((("range", 2, 5, 1), []))
     for df in (False, True):
         out.append((("generateMany", 1, 12, None, False, df), []))
         out.append((("generateMany", 1, 9, ("add", 10), True, df), [("take", 4)]))
@@ -113,7 +121,7 @@ def correspondence(run):
     cases, meta = [], []
     for src, stages, literal, aliases in todo:
         text, o = observe(src, stages, literal, aliases)
-        nontriv = bool(stages) and not (src[0] in ("tuple", "iter", "set", "dict") and len(src[1]) == 0) or src[0] in ("generate", "generateMany")
+        nontriv = bool(stages) and not (src[0] in ("tuple", "iter", "set", "dict") and len(src[1]) == 0) or src[0] in ("generate", "generateMany", "sequence")
         run.case((src, sc.stages_json(stages)), nontrivial=nontriv)
         run.count("source:" + src[0])
         run.count("stages:%d" % len(stages))
